@@ -1,18 +1,21 @@
 #!/usr/bin/env python3
-"""Apply a seeded change to /repo, run the given checks, restore /repo. Usage: seed_eval.py <seeded dir> <check ids...> [--tier t]"""
+"""Apply a seeded change to /repo (or $VERIF_REPO), run the given checks of the verif tree this script lives in, restore the repo.
+Usage: seed_eval.py <seeded dir> <check ids...> [--tier t]"""
 import subprocess, sys, json, os, time
+REPO = os.environ.get("VERIF_REPO", "/repo")
+ROOT = os.path.dirname(os.path.dirname(os.path.abspath(__file__)))
 d = sys.argv[1]; ids = [a for a in sys.argv[2:] if not a.startswith("--")]
 tier = "quick"
 if "--tier" in sys.argv: tier = sys.argv[sys.argv.index("--tier") + 1]; ids = [i for i in ids if i != tier]
 patch = os.path.join(d, "patch.diff")
-assert subprocess.run(["git", "-C", "/repo", "status", "--porcelain", "--untracked-files=no"], capture_output=True, text=True).stdout.strip() == "", "/repo not clean"
-r = subprocess.run(["git", "-C", "/repo", "apply", patch], capture_output=True, text=True)
+assert subprocess.run(["git", "-C", REPO, "status", "--porcelain", "--untracked-files=no"], capture_output=True, text=True).stdout.strip() == "", REPO + " not clean"
+r = subprocess.run(["git", "-C", REPO, "apply", patch], capture_output=True, text=True)
 if r.returncode != 0: print("APPLY FAILED", r.stderr); sys.exit(2)
 res = {}
 try:
     for i in ids:
         t0 = time.time()
-        p = subprocess.run(["/verif/check", i, "--tier", tier], capture_output=True, text=True, cwd="/verif")
+        p = subprocess.run([os.path.join(ROOT, "check"), i, "--tier", tier], capture_output=True, text=True, cwd=ROOT)
         lines = [l for l in p.stdout.splitlines() if l.startswith(("VIOLATION", "OK ", "KNOWN-FINDING"))]
         res[i] = dict(rc=p.returncode, wall=round(time.time() - t0, 1), lines=lines[-3:])
         detail = ""
@@ -24,5 +27,5 @@ try:
         res[i]["detail"] = detail
         print(i, "rc=", p.returncode, lines[-2:], "\n   ", detail.replace("\n", " ")[:500])
 finally:
-    subprocess.run(["git", "-C", "/repo", "checkout", "--", "."])
+    subprocess.run(["git", "-C", REPO, "checkout", "--", "."])
 json.dump(res, open(os.path.join(d, f"eval_{tier}.json"), "w"), indent=1)
